@@ -9,7 +9,8 @@ ENGINES = [ENGINE]
 RULE = ('sessions aimed at the limits: control/databytes in {0, 150, 400} with messages whose size counter lands within +-3 of the limit, '
         'with and without dot-stuffed lines (stored vs transmitted size differ) and empty lines; SIZE= at limit-1, limit, limit+1; 98..102 '
         'Received: lines in the header, in the body, or behind a leading dot; 499..502 recipients in one transaction; runs of 4..9 bad commands '
-        '(unknown, bad sequence, bad syntax, refused recipients) interleaved with good ones; plus general histories. non-trivial = a DATA was '
+        '(unknown, bad sequence, bad syntax, refused recipients) interleaved with good ones; the QUIT-only loop after a pipelining violation fed with '
+        'well-formed and malformed lines (bare LF, stray CR, over-long); plus general histories. non-trivial = a DATA was '
         'accepted or the connection was closed by the server; distinct by case text')
 TRUSTED_BASE = TRUSTED_COMMON
 ASSUMPTIONS = ASSUMPTIONS_COMMON
@@ -44,7 +45,7 @@ def gen_cases(engine, rng, tier):
     n = 250 if tier == 'quick' else 5000
     out = []
     for i in range(n):
-        kind = rng.choice(['size', 'size', 'sizeparam', 'hops', 'hops', 'strict', 'strict', 'bad', 'bad', 'rcpt'] if i % 40 else ['rcpt'])
+        kind = rng.choice(['size', 'size', 'sizeparam', 'hops', 'hops', 'strict', 'strict', 'bad', 'bad', 'wfq', 'wfq', 'rcpt'] if i % 40 else ['rcpt'])
         hello = rng.choice([b'HELO c.example.net\r\n', b'EHLO c.example.net\r\n'])
         if kind == 'size':
             lim = rng.choice([150, 400])
@@ -88,6 +89,17 @@ def gen_cases(engine, rng, tier):
             mailk = rng.choice([b'MAIL FROM:<a@example.net>\r\n', b'MAIL FROM:<a@example.net> BODY=8BITMIME\r\n', b'MAIL FROM:<a@example.net> BODY=7BIT\r\n'])
             chunks = [b'EHLO c.example.net\r\n', mailk, b'RCPT TO:<alice@example.org>\r\n', b'DATA\r\n', body, b'NOOP\r\n']
             cfg = 'relay=none;ip=v4;databytes=0;qq=ok,ok;check2822=%s' % rng.choice(['1', '1', '1', '0'])
+        elif kind == 'wfq':
+            # the QUIT-only loop (wait_for_quit) after a pipelining violation: every further line counts as a bad command,
+            # also the ones net_read() rejects (bare LF, stray CR, over-long)
+            entry = rng.choice(['noop2', 'data', 'early'])
+            if entry == 'noop2': chunks = [hello, b'NOOP\r\nNOOP\r\n']
+            elif entry == 'data': chunks = [hello, session_gen.mail(rng, 'ok'), session_gen.rcpt(rng, 'ok'), b'DATA\r\nSubject: x\r\n']
+            else: chunks = [b'HELO c.example.net\r\nMAIL FROM:<a@example.net>\r\n']
+            for _ in range(rng.choice([3, 5, 6, 7, 8, 12])):
+                chunks.append(rng.choice([b'FOO\r\n', b'FOO\n', b'FOO\n', b'a\rb\r\n', b'x' * 1500 + b'\r\n', b'NOOP\r\n', b'\r\n']))
+            if rng.random() < 0.5: chunks.append(b'QUIT\r\n')
+            cfg = 'relay=none;ip=v4;databytes=0;qq=ok'
         elif kind == 'bad':
             chunks = [hello] if rng.random() < 0.7 else []
             for _ in range(rng.choice([1, 2, 3])):
